@@ -1,4 +1,3 @@
-<<<<<<< HEAD
 #pragma once
 #define LOGL_DEBUG  1
 #define LOGL_INFO   3
@@ -7,25 +6,3 @@
 #define LOGL_FATAL  8
 void verif_logp_sink(int cat, int level, const char *fmt, ...);
 #define LOGP(cat, level, fmt, args...) verif_logp_sink(cat, level, fmt, ## args)
-=======
-/* shim: libosmocore logging -> argument sink.  The arguments ARE evaluated and
- * formatted into a scratch buffer (so a bad pointer / uninitialised value handed to a
- * log statement is seen by the sanitizers); the text itself is never an observable. */
-#pragma once
-#include <stdio.h>
-#include <stdarg.h>
-#include <stdbool.h>
-#include <stdint.h>
-
-#define LOGL_DEBUG	1
-#define LOGL_INFO	3
-#define LOGL_NOTICE	5
-#define LOGL_ERROR	7
-#define LOGL_FATAL	8
-
-void shim_log_sink(int subsys, int level, const char *file, int line, const char *fmt, ...)
-	__attribute__((format(printf, 5, 6)));
-
-#define LOGP(ss, level, fmt, args...) \
-	shim_log_sink(ss, level, __FILE__, __LINE__, fmt, ## args)
->>>>>>> 290d82d36de733d6cf0d7509f16f5a44d8446d2e
